@@ -1,5 +1,6 @@
 SPECIFICATION MCSpec
 CONSTANTS
+  Sizes = {1, 2, 3, 4, 8}
   RLs = {1, 3, 7}
   HOSTs = {1, 2, 4}
   FRs = {1, 2, 3, 5, 11}
@@ -22,7 +23,7 @@ CONSTANTS
   Timeouts = {FALSE, TRUE}
   Shuts = {FALSE, TRUE}
   Heads = {FALSE, TRUE}
-VIEW View
+VIEW MCView
 INVARIANT TypeOK
 INVARIANT Confluent
 INVARIANT BadFramingNeverFinishes
